@@ -7,6 +7,7 @@
 (*           cif.h as read at check time (name, number, words of the name) *)
 (*   nerr  : cif_nerr                                                      *)
 (*   msgs  : cif_errlist[0 .. nerr-1], lower-cased                         *)
+(*   slot  : sizeof(cif_errlist[0])                                        *)
 (* TLC evaluates the property on the single state of this trace.           *)
 (***************************************************************************)
 EXTENDS Naturals, Sequences, FiniteSets, TLC, Json, IOUtils
@@ -89,7 +90,11 @@ DescribesIt(c) == InTable(c) => \E alt \in Required(c) : \A w \in alt : Occurs(w
 \* the message of a code is not (also) the message of another code
 Own(c) == \A d \in Codes : (d # c /\ InTable(c) /\ InTable(d) /\ Msg(c.n) # "") => Msg(c.n) # Msg(d.n)
 
-Bad == {c \in Codes : ~(InTable(c) /\ NonEmpty(c) /\ DescribesIt(c) /\ Own(c))}
+\* ... and it is a string of its own slot: terminated within the slot (the table is char [][slot]; an initialiser of exactly
+\* `slot` characters silently drops the terminator and the string runs on into the next message)
+Fits(c) == InTable(c) => Len(Msg(c.n)) < Obs.slot
+
+Bad == {c \in Codes : ~(InTable(c) /\ NonEmpty(c) /\ DescribesIt(c) /\ Own(c) /\ Fits(c))}
 
 VARIABLE done
 Init == done = FALSE
